@@ -45,7 +45,10 @@ func initToken() {
 		"==",
 		func(_ *Thread, args []value.Value) (value.Value, value.Value) {
 			self := (*token.Token)(args[0].Pointer())
-			other := (*token.Token)(args[1].Pointer())
+			other, ok := args[1].SafeAsReference().(*token.Token)
+			if !ok {
+				return value.False.ToValue(), value.Undefined
+			}
 			return value.BoolVal(self.Equal(other)), value.Undefined
 		},
 		DefWithParameters(1),
